@@ -283,6 +283,30 @@ def check(ctx):
                                        'swallows the following parameter line as the name'})
                     else:
                         ctx.holds('iv.free_text', w, 'getline returns every newline-free string the writer can emit')
+            # tokens of class type (random number engines): the library's operator>> need not skip
+            # leading whitespace (libstdc++'s linear_congruential_engine clears skipws), so the
+            # reader must consume the separator the writer emits in front of the token itself
+            def class_tokens(items):
+                for k, it in enumerate(items):
+                    if it.k == 'loop':
+                        class_tokens(it.body)
+                    elif it.k == 'read' and not ir.is_int_type(it.ctype) and not ir.is_float_type(it.ctype) \
+                            and 'basic_string' not in it.ctype:
+                        prev = items[k - 1] if k > 0 else None
+                        w = '%s:%s' % (it.where, base)
+                        if prev is not None and prev.k in ('skipws', 'ignore', 'get'):
+                            ctx.holds('iv.class_token_separator', w, 'whitespace in front of the %s token is '
+                                      'consumed explicitly before operator>> of the class type runs'
+                                      % (it.member or it.local))
+                        else:
+                            ctx.violation('iv.class_token_separator', w, 'a token of class type (%s) is extracted '
+                                          'with the library\'s operator>> directly after a whitespace separator: '
+                                          'that operator need not skip leading whitespace' % it.ctype[:60],
+                                          {'abstract_counterexample': 'Engine = std::minstd_rand / minstd_rand0 / '
+                                           'knuth_b with libstdc++: operator>> sets flags(ios_base::dec), which '
+                                           'clears skipws; the newline written in front of every generator makes '
+                                           'the extraction fail and the checkpoint cannot be read back'})
+            class_tokens(R)
             W = g.writer
             for k, it in enumerate(W):
                 if it.k == 'field' and it.istext:
